@@ -218,6 +218,12 @@ def cache_sites():
             j = w.ws(j)
             if j >= len(src) or src[j] != '{':
                 continue
+            # only functions that can matter are walked statement by statement: the four lookup
+            # functions and whatever else mentions one of the three caches
+            nxt = re.search(r'^\w+\s*\(', src[j:], re.M)
+            text = src[j:j + nxt.start()] if nxt else src[j:]
+            if name not in LOOKUP_FUNCS and not any(('priv->' + c) in text for c in CACHES):
+                continue
             w.stmt(j, [])
             touches = any(t in CACHES for _g, _c, t in w.out)
             if not (touches or name in LOOKUP_FUNCS):
